@@ -634,6 +634,12 @@ class ClientHello(HelloMessage):
                 while p2.getRemainingLength() > 0:
                     ext = TLSExtension().parse(p2)
                     self.extensions += [ext]
+                # RFC 5246, 7.4.1.4: there MUST NOT be more than one
+                # extension of the same type
+                if len(set(i.extType for i in self.extensions)) != \
+                        len(self.extensions):
+                    raise TLSIllegalParameterException(
+                        "Multiple extensions of the same type present")
             p.stopLengthCheck()
         return self
 
@@ -942,6 +948,10 @@ class ServerHello(HelloMessage):
                 else:
                     ext = TLSExtension(server=True).parse(p2)
                 self.extensions += [ext]
+            if len(set(i.extType for i in self.extensions)) != \
+                    len(self.extensions):
+                raise TLSIllegalParameterException(
+                    "Multiple extensions of the same type present")
         p.stopLengthCheck()
         return self
 
